@@ -142,6 +142,12 @@ CostTableOK(bal, unbal) ==
     /\ bal[1].n = 256 /\ bal[Len(bal)].n = 16384
     /\ \A k \in 1..Len(unbal) : CostUnbalancedOK(unbal[k].n, unbal[k].m, unbal[k].w.m)
 
+\* sparse operands (few non-zero digits): a quarter of the schoolbook count for balanced products from 4096 digits on, and
+\* never more than the schoolbook count; no doubling rule (rows of zero digits are skipped, the ratios are irregular)
+CostSparseOK(bal, unbal) ==
+    /\ \A k \in 1..Len(bal) : bal[k].n >= 4096 => Cmp(MulSmall(bal[k].w.m, 4), Mul(OfInt(bal[k].n), OfInt(bal[k].n))) < 0
+    /\ \A k \in 1..Len(unbal) : CostUnbalancedOK(unbal[k].n, unbal[k].m, unbal[k].w.m)
+
 (* radix ranges *)
 FailsTextRadix(radix)  == radix < 2 \/ radix > 36
 FailsDigitRadix(radix) == radix < 2 \/ radix > 256
